@@ -250,6 +250,48 @@ PBT_PROPERTY(counting_ptr_seq) {
     if (aliasing || unify_shared) pbt::nontrivial();
 }
 
+// Scale class (own target): very many handles to one object (reference counts beyond 255 / 65535),
+// long chains of copies, many objects.
+PBT_PROPERTY(counting_ptr_scale) {
+    reg.reset();
+    static const int NS[] = {40, 254, 255, 256, 257, 1000, 65534, 65535, 65536, 65537, 70000};
+    int n = NS[src.range(0, 10)] + (int)src.range(0, 3);
+    int mode = (int)src.range(0, 3);
+    pbt::label(n >= 65534 ? "handles>=65534" : n >= 254 ? "handles>=254" : "handles<254");
+    PBT_LOG("scale: " << n << " handles, mode " << mode << "\n");
+    {
+        H root = tlx::make_counting<Obj>();
+        const Obj* obj = root.get();
+        std::vector<H> hs;
+        hs.reserve((size_t)n);
+        for (int i = 0; i < n; ++i) {
+            switch (mode) {
+            case 0: hs.push_back(root); break;                       // copies of the root
+            case 1: hs.push_back(hs.empty() ? root : hs.back()); break; // chain: copy of the previous copy
+            case 2: hs.emplace_back(H(root.get())); break;           // from the raw pointer
+            default: { H t(root); hs.push_back(std::move(t)); }      // copy then move
+            }
+        }
+        PBT_CHECK(obj->reference_count() == (size_t)n + 1, "C12/count-mismatch", "after " << n << " copies reference_count()=" << obj->reference_count());
+        PBT_CHECK(root.use_count() == (size_t)n + 1 && !root.unique(), "C12/use_count", "use_count()=" << root.use_count());
+        // drop a generated number of handles from the back, check, re-add some, check
+        size_t drop = (size_t)src.range(0, n);
+        hs.resize(hs.size() - drop);
+        PBT_CHECK(reg.alive[0] && obj->reference_count() == hs.size() + 1, "C12/count-mismatch", "after dropping " << drop << " handles reference_count()=" << obj->reference_count() << " expected " << hs.size() + 1);
+        root.reset(); // the original owner lets go first
+        if (!hs.empty()) {
+            PBT_CHECK(reg.alive[0] && reg.destroyed[0] == 0, "C12/destroyed-while-referenced", "object destroyed although " << hs.size() << " handles remain");
+            PBT_CHECK(obj->reference_count() == hs.size(), "C12/count-mismatch", "reference_count()=" << obj->reference_count() << " expected " << hs.size());
+            // all but one
+            H last = hs.back();
+            hs.clear();
+            PBT_CHECK(reg.alive[0] && last.unique(), "C12/count-mismatch", "one handle left but unique() is false / object gone");
+        }
+    }
+    PBT_CHECK(!reg.alive[0] && reg.destroyed[0] == 1, "C12/leak-or-double", "object alive=" << reg.alive[0] << " destroyed=" << reg.destroyed[0] << " after all handles are gone");
+    if (n >= 254) pbt::nontrivial();
+}
+
 // ------------------------------------------------------------------ concurrent
 
 namespace {
